@@ -11,6 +11,7 @@ CONSTANTS
   AdvMoves = {}
   Forged = {}
   AdvKeys = {}
+  KBResignKeys = {}
   MaxAdv = 0
   MaxDiscs = 0
   VerifyArgs <- VArgs
